@@ -863,7 +863,8 @@ where
     const STRINGY: bool = S::STRINGY;
     const COLLAPSING: bool = S::COLLAPSING;
     const JSON_SAFE: bool = S::JSON_SAFE;
-    const PLAIN_VEC: bool = S::PLAIN_VEC && <O as IcKind<usize>>::PLAIN_VEC;
+    // reserve_items/merge_regions of a pair index do not size its offset list: outside C17's list
+    const PLAIN_VEC: bool = false;
     const SLICY: bool = S::SLICY;
     fn name() -> String {
         format!("Cip<{},{}>", S::name(), <O as IcKind<usize>>::NAME)
